@@ -24,11 +24,20 @@ func FromRDNSequence(rdns pkix.RDNSequence) string {
 	for i := len(rdns) - 1; i >= 0; i-- {
 		for _, atv := range rdns[i] {
 			name := x500AttrTypeFromOID(atv.Type)
-			value := escapeRDNAttrValue(fmt.Sprintf("%s", atv.Value))
-			ss = append(ss, fmt.Sprintf("%s=%s", name, value))
+			ss = append(ss, fmt.Sprintf("%s=%s", name, rdnAttrValue(atv.Value)))
 		}
 	}
 	return strings.Join(ss, ",")
+}
+
+// rdnAttrValue renders an attribute value per RFC 4514, 2.4: strings are escaped;
+// a value of any other type is shown as '#' followed by the hex of its DER encoding.
+func rdnAttrValue(v any) string {
+	if s, ok := v.(string); ok {
+		return escapeRDNAttrValue(s)
+	}
+	der, _ := asn1.Marshal(v)
+	return "#" + hex.EncodeToString(der)
 }
 
 func escapeRDNAttrValue(s string) string {
